@@ -18,13 +18,14 @@ partitura/io/importmidi.py (load_performance_midi, adjust_time), partitura/io/__
 import json
 import math
 import os
+import re
 import warnings
 from fractions import Fraction as F
 
 import core
 from core import cz, cq, clist, ctuple, cbool
 
-EXPECT_MIN = 9
+EXPECT_MIN = 11
 PAIRS = [(480, 500000), (96, 600000), (1000, 333333), (1, 10 ** 6), (4, 250000), (384, 250000), (960, 1000000)]
 KEYNAMES = ["Cb", "Gb", "Db", "Ab", "Eb", "Bb", "F", "C", "G", "D", "A", "E", "B", "F#", "C#",
             "Abm", "Ebm", "Bbm", "Fm", "Cm", "Gm", "Dm", "Am", "Em", "Bm", "F#m", "C#m", "G#m", "D#m", "A#m"]
@@ -43,8 +44,8 @@ def rhe(fr):
 
 
 def tick_exact(ppq, mpq, t):
-    """(nearest tick of the float t, comparable?) -- near-ties of the float evaluation of
-    10**6 * ppq * t / mpq are not comparable (DESIGN 2.4, same rule as c12.py)."""
+    """(nearest tick of the float t -- half to even at an exact tie --, comparable?).  Near-ties of the
+    float evaluation of 10**6 * ppq * t / mpq are not comparable (DESIGN 2.4, same rule as c12.py)."""
     exact = F(10 ** 6) * ppq * F(t) / mpq
     frac = exact - math.floor(exact)
     if frac != F(1, 2) and abs(frac - F(1, 2)) < F(1, 2 ** 20):
@@ -53,6 +54,44 @@ def tick_exact(ppq, mpq, t):
     if F(fl) != exact and abs(F(fl) - exact) > abs(frac - F(1, 2)) / 2:
         return rhe(exact), False
     return rhe(exact), True
+
+
+def tick_cands(ppq, mpq, t):
+    """the nearest ticks of t: one, or the two neighbours when t is exactly half way (C06 says
+    'rounded to the nearest tick'; which neighbour is taken at a tie is not part of the property)"""
+    exact = F(10 ** 6) * ppq * F(t) / mpq
+    fl = math.floor(exact)
+    if exact - fl == F(1, 2):
+        return (fl, fl + 1)
+    return (rhe(exact),)
+
+
+def kuhn(adj, n_right):
+    """maximum bipartite matching; adj[i] = admissible right vertices of left vertex i.
+    -> (match_left, match_right) with -1 for unmatched"""
+    ml = [-1] * len(adj)
+    mr = [-1] * n_right
+
+    def aug(i, seen):
+        for j in adj[i]:
+            if j in seen:
+                continue
+            seen.add(j)
+            if mr[j] == -1 or aug(mr[j], seen):
+                ml[i], mr[j] = j, i
+                return True
+        return False
+
+    for i in range(len(adj)):
+        aug(i, set())
+    return ml, mr
+
+
+def match_items(exp, got):
+    """exp: [(fields, [admissible tick tuples])], got: [(fields, tick tuple)] -> (unmatched exp, unmatched got)"""
+    adj = [[j for j, (f, t) in enumerate(got) if f == e[0] and t in e[1]] for e in exp]
+    ml, mr = kuhn(adj, len(got))
+    return [exp[i] for i in range(len(exp)) if ml[i] == -1], [got[j] for j in range(len(got)) if mr[j] == -1]
 
 
 # ----------------------------------------------------------------------------
@@ -184,17 +223,21 @@ def build_parts(case):
 def make_exclusive(case):
     """Drop notes so that no two notes of one (file track, channel, pitch) -- of one (channel, pitch)
     when tracks are merged on either side -- overlap or touch at tick resolution (closed tick
-    intervals pairwise disjoint).  Returns False when some time is a near-tie of the rounding."""
+    intervals pairwise disjoint, whichever neighbour a time exactly between two ticks is rounded
+    to).  Returns False when some time is a near-tie of the rounding."""
     ppq, mpq = case["ppq"], case["mpq"]
     merged = case["ms"] or case["ml"]
     taken = {}
+
+    def interval(n):
+        return min(tick_cands(ppq, mpq, n["note_on"])), max(tick_cands(ppq, mpq, n["note_off"]))
+
     for k, part in enumerate(case["parts"]):
         keep = []
         for n in part["notes"]:
-            a, c1 = tick_exact(ppq, mpq, n["note_on"])
-            b, c2 = tick_exact(ppq, mpq, n["note_off"])
-            if not (c1 and c2):
+            if not (tick_exact(ppq, mpq, n["note_on"])[1] and tick_exact(ppq, mpq, n["note_off"])[1]):
                 return False
+            a, b = interval(n)
             ftrack = 0 if merged else ((k, n["track"]) if case["kind"] == "perf" else n["track"])
             key = (ftrack, n["channel"], n["midi_pitch"])
             if all(b < x or y < a for x, y in taken.get(key, [])):
@@ -206,9 +249,7 @@ def make_exclusive(case):
             ftrack = 0 if merged else ((k, n["track"]) if case["kind"] == "perf" else n["track"])
             if (ftrack, n["channel"], n["midi_pitch"]) in taken:
                 return False
-            a, _ = tick_exact(ppq, mpq, n["note_on"])
-            b, _ = tick_exact(ppq, mpq, n["note_off"])
-            taken[(ftrack, n["channel"], n["midi_pitch"])] = [(a, b)]
+            taken[(ftrack, n["channel"], n["midi_pitch"])] = [interval(n)]
             keep = [n]
         part["notes"] = keep
         used = {n["track"] for n in keep}
@@ -251,7 +292,6 @@ def observe_perf(perf):
     out = []
     for k, pp in enumerate(perf.performedparts):
         out.append(dict(
-            file_track=pp.track,
             notes=[dict(id=n["id"], pitch=int(n["midi_pitch"]), vel=int(n["velocity"]), ch=int(n["channel"]), track=int(n["track"]),
                         on_tick=int(n["note_on_tick"]), off_tick=int(n["note_off_tick"]), on=float(n["note_on"]), off=float(n["note_off"]))
                    for n in pp.notes],
@@ -268,90 +308,166 @@ def observe_perf(perf):
     return out
 
 
+def id_order(notes):
+    """the notes of one part in the order of their ids: by the number an id ends in when every id has
+    one (n0, n1, ..., n10 -- not alphabetically), in list order otherwise"""
+    nums = []
+    for n in notes:
+        m = re.search(r"(\d+)$", str(n["id"]))
+        if not m:
+            return list(notes)
+        nums.append(int(m.group(1)))
+    return [n for _, _, n in sorted(zip(nums, range(len(notes)), notes), key=lambda x: x[:2])]
+
+
 def oracle_ids(obs):
+    """ids are distinct within a part and run along (onset, pitch, offset, channel, track)"""
     bad = []
     for k, p in enumerate(obs):
-        ids = [n["id"] for n in p["notes"]]
-        if ids != ["n%d" % i for i in range(len(ids))]:
-            bad.append("part %d: ids %s are not n0..n%d in list order" % (k, ids[:6], len(ids) - 1))
-        keys = [(n["on_tick"], n["pitch"], n["off_tick"], n["ch"], n["track"]) for n in p["notes"]]
+        ids = [str(n["id"]) for n in p["notes"]]
+        if len(set(ids)) != len(ids) or any(n["id"] is None for n in p["notes"]):
+            bad.append("part %d: note ids %s are not distinct" % (k, ids[:8]))
+            continue
+        keys = [(n["on_tick"], n["pitch"], n["off_tick"], n["ch"], n["track"]) for n in id_order(p["notes"])]
         if keys != sorted(keys):
-            bad.append("part %d: ids not assigned in order of (onset, pitch, offset, channel, track): %s" % (k, keys[:6]))
-        for n in p["notes"]:
-            if n["track"] != k:
-                bad.append("part %d: note %s carries track %d" % (k, n["id"], n["track"]))
-                break
+            j = [i for i in range(len(keys) - 1) if keys[i] > keys[i + 1]][0]
+            bad.append("part %d: ids not assigned in order of (onset, pitch, offset, channel, track): %s gets %s, %s gets %s"
+                       % (k, keys[j], id_order(p["notes"])[j]["id"], keys[j + 1], id_order(p["notes"])[j + 1]["id"]))
     return bad
 
 
-def oracle_roundtrip(case, pps, obs):
+def expected_groups(case):
+    """What has to come back, grouped by the track it has to come back on.  Groups: everything (tracks
+    merged on either side); (part, track number) for a Performance (whose constructor renumbers the
+    tracks so that no number is shared between parts: only consistency is asked -- notes, controls and
+    programs of one (part, track) stay together and apart from the others); the track number for a
+    PerformedPart / list.  Items are (fields, admissible tick tuples)."""
+    ppq, mpq = case["ppq"], case["mpq"]
+    merged = case["ms"] or case["ml"]
+    perf = case["kind"] == "perf"
+    G = {}
+
+    def cands(t):
+        return tick_cands(ppq, mpq, t)
+
+    for k, part in enumerate(case["parts"]):
+        def grp(tr, k=k):
+            key = 0 if merged else ((k, tr) if perf else (tr,))
+            return G.setdefault(key, dict(notes=[], ctrls=[], progs=[], keys=[], tsigs=[], metas=[], dflt=set()))
+
+        for n in part["notes"]:
+            grp(n["track"])["notes"].append(((n["midi_pitch"], n["velocity"], n["channel"]),
+                                             [(a, b) for a in cands(n["note_on"]) for b in cands(n["note_off"])]))
+        for c in part["ctrls"]:
+            grp(c["track"])["ctrls"].append(((c["number"], c["value"], c["channel"]), [(a,) for a in cands(c["time"])]))
+        for x in part["progs"]:
+            grp(x["track"])["progs"].append(((int(x["program"]), x["channel"]), [(a,) for a in cands(x["time"])]))
+        if not part["progs"]:  # the exporter's documented default: program 0 may be added on the part's (channel, track) pairs
+            for x in part["notes"] + part["ctrls"]:
+                grp(x["track"])["dflt"].add(x["channel"])
+        for name in ("keys", "tsigs", "metas"):
+            for j, x in enumerate(part[name]):
+                # build_parts puts the j-th signature / meta event of a Performance's part on the track of its (j mod n)-th note
+                tr = part["notes"][j % len(part["notes"])]["track"] if perf else x["track"]
+                if name == "keys":
+                    f = (x.get("fifths", 0), "minor" if x.get("mode") in ("minor", -1) else "major")
+                elif name == "tsigs":
+                    f = (x.get("beats", 4), x.get("beat_type", 4))
+                else:
+                    f = meta_key(x)
+                grp(tr)[name].append((f, [(a,) for a in cands(x["time"])]))
+    return G
+
+
+def observed_tracks(obs):
+    """the loaded items by the track number they carry"""
+    T = {}
+
+    def tr(t):
+        return T.setdefault(t, dict(notes=[], ctrls=[], progs=[], keys=[], tsigs=[], metas=[]))
+
+    for p in obs:
+        for n in p["notes"]:
+            tr(n["track"])["notes"].append(((n["pitch"], n["vel"], n["ch"]), (n["on_tick"], n["off_tick"])))
+        for c in p["ctrls"]:
+            tr(c["track"])["ctrls"].append(((c["number"], c["value"], c["ch"]), (c["tick"],)))
+        for x in p["progs"]:
+            tr(x["track"])["progs"].append(((x["program"], x["ch"]), (x["tick"],)))
+        for x in p["keys"]:
+            tr(x["track"])["keys"].append(((x["fifths"], x["mode"]), (x["tick"],)))
+        for x in p["tsigs"]:
+            tr(x["track"])["tsigs"].append(((x["beats"], x["beat_type"]), (x["tick"],)))
+        for x in p["metas"]:
+            if x["type"] != "end_of_track":
+                tr(x["track"])["metas"].append((x["key"], (x["tick"],)))
+    return T
+
+
+WHAT = dict(notes="notes (pitch, velocity, channel | on tick, off tick)", ctrls="control changes (number, value, channel | tick)",
+            progs="program changes (program, channel | tick)", keys="key signatures (fifths, mode | tick)",
+            tsigs="time signatures (beats, beat type | tick)", metas="other meta events")
+
+
+def show(items):
+    return [(f, t[0] if isinstance(t, list) else t) for f, t in items[:3]]
+
+
+def group_failures(g, o, gname, tname):
+    """the group g of the original against what was loaded with track number tname"""
+    bad = []
+    for name in ("notes", "ctrls", "keys", "tsigs", "metas"):
+        miss, extra = match_items(g[name], o[name])
+        if miss or extra:
+            bad.append("%s of %s differ after save->load (track %s): missing %s, unexpected %s" % (WHAT[name], gname, tname, show(miss), show(extra)))
+    miss, extra = match_items(g["progs"], o["progs"])
+    extra = [(f, t) for f, t in extra if not (f[0] == 0 and f[1] in g["dflt"])]
+    if miss or extra:
+        bad.append("%s of %s differ after save->load (track %s): missing %s, unexpected %s" % (WHAT["progs"], gname, tname, show(miss), show(extra)))
+    return bad
+
+
+EMPTY = dict(notes=[], ctrls=[], progs=[], keys=[], tsigs=[], metas=[], dflt=set())
+
+
+def oracle_roundtrip(case, obs):
     """load(save(p)) against p, by the property's words"""
     ppq, mpq = case["ppq"], case["mpq"]
     merged = case["ms"] or case["ml"]
     bad = []
-    # the exporter writes one file track per distinct track number, in increasing order
-    used = sorted({n.get("track", 0) for pp in pps for n in pp.notes} | {c.get("track", 0) for pp in pps for c in pp.controls}
-                  | {p.get("track", 0) for pp in pps for p in pp.programs})
-    contiguous = used == list(range(len(used)))
-    rank = {t: (0 if merged else i) for i, t in enumerate(used)}
-
-    def tk(t):
-        return tick_exact(ppq, mpq, t)[0]
 
     def sec(tick):
         return F(tick) * mpq / (10 ** 6 * ppq)
 
-    exp_notes = sorted((n["midi_pitch"], n["velocity"], n.get("channel", 1), rank[n.get("track", 0)], tk(n["note_on"]), tk(n["note_off"]))
-                       for pp in pps for n in pp.notes)
-    got_notes = sorted((n["pitch"], n["vel"], n["ch"], n["track"], n["on_tick"], n["off_tick"]) for p in obs for n in p["notes"])
-    if exp_notes != got_notes:
-        miss = [x for x in exp_notes if x not in got_notes][:3]
-        extra = [x for x in got_notes if x not in exp_notes][:3]
-        bad.append("notes (pitch, velocity, channel, track, on tick, off tick) differ after save->load: missing %s, unexpected %s%s"
-                   % (miss, extra, "" if contiguous or merged else " [track numbers compared by rank]"))
     for p in obs:
         for n in p["notes"]:
             for a, b in ((n["on"], n["on_tick"]), (n["off"], n["off_tick"])):
                 if abs(F(a) - sec(b)) > REL * max(1, sec(b)):
                     bad.append("note time %r s is not tick %d * mpq / (10^6 ppq) = %s" % (a, b, float(sec(b))))
-    exp_c = sorted((c["number"], c["value"], c.get("channel", 1), rank[c.get("track", 0)], tk(c["time"])) for pp in pps for c in pp.controls)
-    got_c = sorted((c["number"], c["value"], c["ch"], c["track"], c["tick"]) for p in obs for c in p["ctrls"])
-    if exp_c != got_c:
-        bad.append("control changes differ after save->load: expected %s got %s" % (exp_c[:4], got_c[:4]))
-    # programs: the given ones; a part without any gets program 0 on each of its (channel, track)
-    exp_p = sorted((int(x["program"]), x.get("channel", 1), rank[x.get("track", 0)], tk(x["time"])) for pp in pps for x in pp.programs)
-    dflt = sorted({(0, ch, rank[tr]) for pp in pps if not pp.programs
-                   for ch, tr in [(n.get("channel", 1), n.get("track", 0)) for n in pp.notes] + [(c.get("channel", 1), c.get("track", 0)) for c in pp.controls]})
-    got_p = sorted((x["program"], x["ch"], x["track"], x["tick"]) for p in obs for x in p["progs"])
-    rest = list(got_p)
-    for x in exp_p:
-        if x in rest:
-            rest.remove(x)
-        else:
-            bad.append("program change %s lost after save->load (got %s)" % (x, got_p[:5]))
-            break
+        for x in p["ctrls"] + p["progs"] + p["keys"] + p["tsigs"] + p["metas"]:
+            if abs(F(x["t"]) - sec(x["tick"])) > REL * max(1, sec(x["tick"])):
+                bad.append("event time %r s is not tick %d * mpq / (10^6 ppq) = %s" % (x["t"], x["tick"], float(sec(x["tick"]))))
+    G = expected_groups(case)
+    T = observed_tracks(obs)
+    gkeys, tkeys = sorted(G), sorted(T)
+    if merged or case["kind"] != "perf":
+        # tracks merged: everything on track 0.  PerformedPart / list: the same track (one file track per
+        # track number, so that numbers 0..n-1 come back as they are; other numbers are compared by rank)
+        for i, gk in enumerate(gkeys):
+            bad += group_failures(G[gk], T.get(i, EMPTY), "track %s" % (gk if merged else gk[0]), i)
+        for t in tkeys:
+            if t >= len(gkeys):
+                bad.append("items on track %d after save->load of a performance with %d track(s)" % (t, len(gkeys)))
     else:
-        need = [(a, b, c) for a, b, c in dflt]
-        for a, b, c, _ in rest:
-            if (a, b, c) in need:
-                need.remove((a, b, c))
-            elif (a, b, c) not in dflt:
-                bad.append("unexpected program change %s after save->load" % ((a, b, c),))
-        if need and not any(pp.programs for pp in pps):
-            bad.append("default program 0 missing for (channel, track) %s" % need[:3])
-    ftr = (lambda t: 0) if merged else (lambda t: rank.get(t, t))
-    exp_k = sorted((k.get("fifths", 0), "minor" if k.get("mode") in ("minor", -1) else "major", ftr(k.get("track", 0)), tk(k["time"])) for pp in pps for k in pp.key_signatures)
-    got_k = sorted((k["fifths"], k["mode"], k["track"], k["tick"]) for p in obs for k in p["keys"])
-    if exp_k != got_k:
-        bad.append("key signatures differ after save->load: expected %s got %s" % (exp_k[:4], got_k[:4]))
-    exp_t = sorted((t.get("beats", 4), t.get("beat_type", 4), ftr(t.get("track", 0)), tk(t["time"])) for pp in pps for t in pp.time_signatures)
-    got_t = sorted((t["beats"], t["beat_type"], t["track"], t["tick"]) for p in obs for t in p["tsigs"])
-    if exp_t != got_t:
-        bad.append("time signatures differ after save->load: expected %s got %s" % (exp_t[:4], got_t[:4]))
-    exp_m = sorted((meta_key(m), ftr(m.get("track", 0)), tk(m["time"])) for pp in pps for m in pp.meta_other)
-    got_m = sorted((m["key"], m["track"], m["tick"]) for p in obs for m in p["metas"] if m["type"] != "end_of_track")
-    if exp_m != got_m:
-        bad.append("other meta events differ after save->load: expected %s got %s" % (exp_m[:3], got_m[:3]))
+        adj = [[j for j, t in enumerate(tkeys) if not group_failures(G[gk], T[t], "", t)] for gk in gkeys]
+        ml, mr = kuhn(adj, len(tkeys))
+        if -1 in ml or -1 in mr:
+            # name the difference against the numbering in order of (part, track)
+            for i, gk in enumerate(gkeys):
+                if ml[i] == -1:
+                    bad += group_failures(G[gk], T.get(i, EMPTY), "part %d track %d" % gk, i)
+            if not bad:
+                bad.append("after save->load the items carry track numbers %s; the performance has %d (part, track) pairs %s"
+                           % (tkeys, len(gkeys), gkeys))
     return bad + oracle_ids(obs)
 
 
@@ -384,7 +500,7 @@ def run_perf_case(case, workdir=None):
     except Exception as e:
         return ["loading the saved file raised %s: %s" % (type(e).__name__, e)], None
     obs = observe_perf(perf)
-    return oracle_roundtrip(case, pps, obs), (pps, mf, obs)
+    return oracle_roundtrip(case, obs), (pps, mf, obs)
 
 
 # ----------------------------------------------------------------------------
@@ -523,13 +639,14 @@ def oracle_midi(case, obs):
                         break
         ctrls = [(t, s[2], s[3], s[1]) for (t, _, _, s) in evs if s[0] == "cc"]
         progs = [(t, s[2], s[1]) for (t, _, _, s) in evs if s[0] == "pc"]
-        if notes or ctrls or progs:
-            exp_parts.append(dict(file_track=i, notes=sorted(notes), ctrls=ctrls, progs=progs,
-                                  keys=[(t, KEYNAMES[s[1]]) for (t, _, _, s) in evs if s[0] == "key"],
-                                  tsigs=[(t, s[1], s[2]) for (t, _, _, s) in evs if s[0] == "tsig"],
-                                  metas=[(t, s[1], s[2]) for (t, _, _, s) in evs if s[0] == "text"]))
-    if [p["file_track"] for p in exp_parts] != [p["file_track"] for p in obs]:
-        return ["parts come from file tracks %s, expected %s" % ([p["file_track"] for p in obs], [p["file_track"] for p in exp_parts])]
+        if notes or ctrls or progs:  # a track with none of these gives no performed part
+            exp_parts.append(dict(file_track=i, notes=sorted(notes), ctrls=sorted(ctrls), progs=sorted(progs),
+                                  keys=sorted((t, KEYNAMES[s[1]]) for (t, _, _, s) in evs if s[0] == "key"),
+                                  tsigs=sorted((t, s[1], s[2]) for (t, _, _, s) in evs if s[0] == "tsig"),
+                                  metas=sorted((t, s[1], s[2]) for (t, _, _, s) in evs if s[0] == "text")))
+    if len(exp_parts) != len(obs):
+        return ["%d performed parts loaded, the file has %d tracks with notes, controls or programs (tracks %s)"
+                % (len(obs), len(exp_parts), [p["file_track"] for p in exp_parts])]
     for k, (e, o) in enumerate(zip(exp_parts, obs)):
         got = [(n["on_tick"], n["pitch"], n["off_tick"], n["ch"], n["vel"]) for n in o["notes"]]
         if sorted(got) != e["notes"]:
@@ -540,20 +657,24 @@ def oracle_midi(case, obs):
                 if abs(F(a) - sec(b)) > REL * max(1, sec(b)):
                     bad.append("track %d: tick %d loaded as %r s; integrating the tempo changes in tick order gives %r s" % (e["file_track"], b, a, float(sec(b))))
                     break
-        if [(c["tick"], c["number"], c["value"], c["ch"]) for c in o["ctrls"]] != e["ctrls"]:
+        if sorted((c["tick"], c["number"], c["value"], c["ch"]) for c in o["ctrls"]) != e["ctrls"]:
             bad.append("track %d: control changes differ" % e["file_track"])
         for c in o["ctrls"] + o["progs"] + o["keys"] + o["tsigs"] + o["metas"]:
             if abs(F(c["t"]) - sec(c["tick"])) > REL * max(1, sec(c["tick"])):
                 bad.append("track %d: event at tick %d loaded as %r s, expected %r s" % (e["file_track"], c["tick"], c["t"], float(sec(c["tick"]))))
                 break
-        if [(c["tick"], c["program"], c["ch"]) for c in o["progs"]] != e["progs"]:
+        if sorted((c["tick"], c["program"], c["ch"]) for c in o["progs"]) != e["progs"]:
             bad.append("track %d: program changes differ" % e["file_track"])
-        if [(c["tick"], c["name"]) for c in o["keys"]] != e["keys"]:
+        if sorted((c["tick"], c["name"]) for c in o["keys"]) != e["keys"]:
             bad.append("track %d: key signatures differ" % e["file_track"])
-        if [(c["tick"], c["beats"], c["beat_type"]) for c in o["tsigs"]] != e["tsigs"]:
+        if sorted((c["tick"], c["beats"], c["beat_type"]) for c in o["tsigs"]) != e["tsigs"]:
             bad.append("track %d: time signatures differ" % e["file_track"])
-        if [(m["tick"], m["type"], dict(m["key"]).get("text")) for m in o["metas"] if m["type"] != "end_of_track"] != e["metas"]:
+        if sorted((m["tick"], m["type"], dict(m["key"]).get("text")) for m in o["metas"] if m["type"] != "end_of_track") != e["metas"]:
             bad.append("track %d: other meta events differ" % e["file_track"])
+    # track numbers: one per part (everything read from one file track carries the same number, parts differ)
+    nums = [sorted({x["track"] for name in ("notes", "ctrls", "progs") for x in o[name]}) for o in obs]
+    if any(len(x) != 1 for x in nums) or len({x[0] for x in nums if x}) != len(nums):
+        bad.append("track numbers of the notes / controls / programs of the loaded parts: %s (want one number per part, all different)" % nums)
     return bad + oracle_ids(obs)
 
 
@@ -578,13 +699,13 @@ def term_load(case, mf, obs, intern):
     parts = []
     for p in obs:
         notes = clist([ctuple([cz(n["pitch"]), cz(n["vel"]), cz(n["ch"]), cz(n["on_tick"]), cz(n["off_tick"]),
-                               core.cfloat_q(n["on"]), core.cfloat_q(n["off"])]) for n in p["notes"]])
+                               core.cfloat_q(n["on"]), core.cfloat_q(n["off"])]) for n in id_order(p["notes"])])
         ctrls = clist([ctuple([cz(c["tick"]), "(CC %s %s %s)" % (cz(c["ch"]), cz(c["number"]), cz(c["value"])), core.cfloat_q(c["t"])]) for c in p["ctrls"]])
         progs = clist([ctuple([cz(c["tick"]), "(PC %s %s)" % (cz(c["ch"]), cz(c["program"])), core.cfloat_q(c["t"])]) for c in p["progs"]])
         keys = clist([ctuple([cz(c["tick"]), "(KeySig %s)" % cz(KEYNAMES.index(c["name"]))]) for c in p["keys"]])
         tsigs = clist([ctuple([cz(c["tick"]), "(TimeSig %s %s)" % (cz(c["beats"]), cz(c["beat_type"]))]) for c in p["tsigs"]])
         metas = clist([ctuple([cz(m["tick"]), c_meta(m)]) for m in p["metas"]])
-        parts.append(ctuple([cz(p["file_track"]), notes, ctrls, progs, keys, tsigs, metas]))
+        parts.append(ctuple([notes, ctrls, progs, keys, tsigs, metas]))
     tracks = clist([c_track(t, intern) for t in mf.tracks])
     return ctuple([cz(case["ppq"]), cz(500000), cbool(case["merge"]), tracks, clist(parts)])
 
@@ -623,21 +744,26 @@ def corpus_midi():
 def run(ctx):
     warnings.filterwarnings("ignore")
     ctx.rule = ("(a) performances: 1-3 parts x 1-12 notes (times on 1/128, 1/16, 1/8, 1/1000 s grids, exact .0/.25/.5 tick positions, random floats; "
-                "zero-length notes; velocities 1..127; channels 0..15; track pools incl. non-contiguous numbers), 0-9 controls of any number/value, "
-                "0-2 programs (so both explicit programs and default insertion), key/time signatures, text-like meta events; input kind "
-                "Performance/list/PerformedPart; merge_tracks_save and merge_tracks each 30%; ppq/mpq from 7 pairs or random; 12% through a real file "
-                "(half of them through load_performance).  Notes that would overlap or touch another note of the same (file track, channel, pitch) at tick "
-                "resolution are dropped (proviso of C06).  (b) MIDI files: 1-4 tracks x 0-20 events, ppq from 7 values, set_tempo events in no / the first / "
-                "any / only later tracks incl. repeated values and equal ticks, zero-velocity note-ons, stray note-offs, unclosed notes, pitch bends, "
-                "end_of_track present or not, merge_tracks 30%.  Non-trivial = (a) a case with >= 2 notes or a merge; (b) a file with a tempo change "
-                "in a track other than the first or >= 2 tempo changes.")
+                "zero-length notes; velocities 1..127; channels 0..15; track pools incl. non-contiguous numbers and numbers shared between parts), "
+                "0-9 controls of any number/value, 0-2 programs (so both explicit programs and default insertion; programs also on tracks without notes), "
+                "key/time signatures, text-like meta events; input kind Performance/list/PerformedPart; merge_tracks_save and merge_tracks each 30%; "
+                "ppq/mpq from 7 pairs or random; 12% through a real file (half of them through load_performance).  Notes that would overlap or touch "
+                "another note of the same (file track, channel, pitch) at tick resolution are dropped (proviso of C06).  (b) MIDI files: 1-4 tracks x 0-20 "
+                "events, ppq from 7 values, set_tempo events in no / the first / any / only later tracks incl. repeated values and equal ticks, "
+                "zero-velocity note-ons, stray note-offs, unclosed notes, notes touching at one tick, pitch bends, end_of_track present or not, "
+                "merge_tracks 30%.  Non-trivial = (a) a case with >= 2 notes or a merge; (b) a file with a tempo change in a track other than the first "
+                "or >= 2 tempo changes.")
     ctx.trusted = ["Coq 8.16.1 kernel incl. vm_compute", "harness/props/c06.py (generators, mido message printer, Python oracles)", "mido 1.3 (MidiFile, merge_tracks, file reader/writer)"]
     ctx.assumptions = [
         "times whose exact tick position is within 2^-20 of .5 without being on it (or whose float evaluation is inexact at a tie) are not generated into compared cases (counted)",
+        "a time exactly half way between two ticks may come back on either of them ('the nearest tick'); the Coq model accepts any of four rules (half to even / up / down / to odd) applied to the whole file",
         "'overlap' is read at tick resolution on closed intervals: two notes of one (track, channel, pitch) whose tick intervals share a tick are outside C06's proviso",
-        "a part without program changes is expected to come back with program 0 on each of its (channel, track) pairs (the exporter's documented default)",
+        "program 0 on a (channel, track) pair of a part without program changes (the exporter's documented default) is accepted, at any tick, and not required",
         "end_of_track meta events (written by mido) are ignored when meta events are compared",
-        "track numbers: the exporter writes one file track per distinct track number in increasing order; for non-contiguous numbers the round trip is compared by rank",
+        "track numbers: merged -> 0; PerformedPart / list: one file track per distinct track number, numbers 0..n-1 come back unchanged, other numbers are compared by rank; "
+        "Performance (its constructor renumbers tracks shared between parts): notes, controls and programs of one (part, track) come back on one track number, different pairs on different numbers",
+        "controls, programs, signatures and meta events are compared as multisets per track (their list order is not named by C06); ids: distinct, and ordered by the number they end in",
+        "of several set_tempo events at one tick the one read last (track order, then position) is taken to be in force",
         "seconds are compared with relative tolerance 1e-9 against exact rational arithmetic",
     ]
     ok, why = ctx.coq_props(expect_min=EXPECT_MIN)
@@ -695,10 +821,18 @@ def run(ctx):
         save_cases.append(case)
     if ok:
         failing = ctx.coq_failing("save", imports, "", save_terms, "check_save", shard=100)
-        ctx.obligation("correspondence: Model.C06.save = mido messages (delta times, order, default programs, set_tempo, merged track) of "
-                       "save_performance_midi on %d performances" % len(save_terms), not failing, failing[:5])
+        ctx.obligation("correspondence: per file track, the timed messages of save_performance_midi are (as a multiset) those of Model.C06.save "
+                       "(nearest ticks, one tie rule per file; default programs optional, set_tempo mpq at tick 0) and the message loop pairs the "
+                       "same notes from them, on %d performances" % len(save_terms), not failing, failing[:5])
         for i in failing[:3]:
-            ctx.violation("model and implementation disagree on the messages written by save_performance_midi", {"kind": "perf-model", "case": save_cases[i]})
+            ctx.violation("model and implementation disagree on the messages written by save_performance_midi (timed messages per track as a "
+                          "multiset, or the notes they pair to)", {"kind": "perf-model", "case": save_cases[i]})
+        try:  # information only: how many files are message for message what the model of today's code writes
+            inexact = ctx.coq_failing("save_exact", imports, "", save_terms, "check_save_exact", shard=100)
+            ctx.count("a:saved messages identical to Model.C06.save (order within a tick, tick of default programs)", len(save_terms) - len(inexact))
+            ctx.count("a:saved messages equal to the model only up to what C06 names", len(inexact))
+        except Exception as e:
+            ctx.log("check_save_exact not evaluated: %s" % str(e)[:300])
 
     # ---- (b)
     load_terms, load_cases = [], []
@@ -725,8 +859,9 @@ def run(ctx):
         load_cases.append(case)
     if ok:
         failing = ctx.coq_failing("load", imports, "", load_terms, "check_load", shard=150)
-        ctx.obligation("correspondence: Model.C06.load (+ adjust_time) = parts, notes in id order (ticks exact, seconds 1e-9), controls, programs, "
-                       "signatures, meta events of load_performance_midi on %d hand-built MIDI files" % len(load_terms), not failing, failing[:5])
+        ctx.obligation("correspondence: Model.C06.load (+ adjust_time) = parts of load_performance_midi: notes (multiset; ticks exact, seconds 1e-9; "
+                       "id order sorted by onset, pitch, offset, channel), controls, programs, signatures, meta events (multisets) on %d hand-built "
+                       "MIDI files" % len(load_terms), not failing, failing[:5])
         for i in failing[:3]:
             ctx.violation("model and implementation disagree on load_performance_midi", {"kind": "midi-model", "case": load_cases[i]})
     if not ok and not ctx.violations:
